@@ -23,6 +23,40 @@ fn busy_script(d: &str, n: usize) -> String {
     p
 }
 
+/// `/* <block ..> */ c0 /* </block> */ /* <block ..> */ c1 /* </block> */` - two or three blocks per line
+fn render_inline(blocks: &[(TagSrc, String)], rng: &mut Rng) -> Rendered {
+    let mut text = String::new();
+    let mut out: Vec<ExpBlock> = Vec::new();
+    let mut k = 0;
+    while k < blocks.len() {
+        let n = rng.range(2, 3).min(blocks.len() - k);
+        for (tag, content) in &blocks[k..k + n] {
+            text.push_str("/* ");
+            let lo = text.len();
+            text.push_str(&tag.render());
+            let hi = text.len();
+            text.push_str(" */");
+            let clo = text.len();
+            text.push(' ');
+            text.push_str(content);
+            text.push(' ');
+            let chi = text.len();
+            text.push_str("/* </block> */ ");
+            out.push(ExpBlock { attrs: tag.map(), ts: (0, lo), te: (0, hi - 1), clo, chi, cs: (0, 0), ce: (0, 0), depth: 0 });
+        }
+        text.push('\n');
+        k += n;
+    }
+    for b in out.iter_mut() {
+        let (lo, hi) = (b.ts.1, b.te.1);
+        b.ts = pos_at(&text, lo);
+        b.te = pos_at(&text, hi);
+        b.cs = pos_at(&text, b.clo);
+        b.ce = pos_at(&text, b.chi);
+    }
+    Rendered { text, spans: Vec::new(), blocks: out }
+}
+
 pub fn generate(rng: &mut Rng, idx: usize, tier: Tier) -> CaseOut {
     let d = mix::scripts_dir();
     // mostly small sets; every fifth case is a large one (more tasks than any plausible concurrency cap)
@@ -40,15 +74,21 @@ pub fn generate(rng: &mut Rng, idx: usize, tier: Tier) -> CaseOut {
             std::fs::write(&p, body).ok();
         }
     }
+    // every seventh case: several blocks per source line (block comments side by side), so that
+    // blocks can only be told apart by column, never by (file, line)
+    let same_line = idx % 7 == 3 && !count_mode;
     let failing = ["err.lua", "num.lua", "novalidate.lua", "syntax.lua", "missing.lua"];
     let fail_at = rng.below(nblocks);
     let mut per_file: Vec<Vec<GNode>> = vec![Vec::new(); nfiles];
-    let langs = ["python", "js", "rust"];
+    let langs = if same_line { ["js", "c", "rust"] } else { ["python", "js", "rust"] };
+    let mut inline: Vec<Vec<(TagSrc, String)>> = vec![Vec::new(); nfiles];
     let mut plans: Vec<(usize, String, Vec<(String, String)>, String)> = Vec::new(); // (file, script name, attrs, content text)
     for b in 0..nblocks {
         let fi = rng.below(nfiles);
         let lang = lang(langs[fi % langs.len()]);
-        let content = CONTENTS[rng.below(CONTENTS.len())];
+        // (same-line blocks get pairwise different contents: the Lua oracle is keyed by script, file:line and argument)
+        let inline_content = format!("{}{b}", ["plain", "alpha", "x", "zeta"][rng.below(4)]);
+        let content: &str = if same_line { inline_content.as_str() } else { CONTENTS[rng.below(CONTENTS.len())] };
         let script = if count_mode {
             "count.lua".to_string()
         } else if fail_mode && b == fail_at {
@@ -68,7 +108,7 @@ pub fn generate(rng: &mut Rng, idx: usize, tier: Tier) -> CaseOut {
         if count_mode {
             attrs.push(("log".into(), log.clone()));
         }
-        match rng.below(8) {
+        match if same_line { 7 } else { rng.below(8) } {
             0 => attrs.push(("check-lua-pattern".into(), "id=(?P<value>[a-z]+)".into())),
             1 => attrs.push(("check-lua-pattern".into(), "[a-z]+".into())),
             // patterns whose match depends on the untrimmed content
@@ -84,15 +124,19 @@ pub fn generate(rng: &mut Rng, idx: usize, tier: Tier) -> CaseOut {
         }
         let aref: Vec<(&str, &str)> = attrs.iter().map(|(k, v)| (k.as_str(), v.as_str())).collect();
         let lines: Vec<String> = content.split('\n').map(|s| s.to_string()).collect();
-        per_file[fi].push(simple_block(lang, rng, TagSrc::simple(&aref), &lines));
-        per_file[fi].push(GNode::Text(lang.code[0].to_string()));
+        if same_line {
+            inline[fi].push((TagSrc::simple(&aref), content.to_string()));
+        } else {
+            per_file[fi].push(simple_block(lang, rng, TagSrc::simple(&aref), &lines));
+            per_file[fi].push(GNode::Text(lang.code[0].to_string()));
+        }
         plans.push((fi, script, attrs, content.to_string()));
     }
     let mut files: Vec<(String, String)> = Vec::new();
     let mut rendered: Vec<Rendered> = Vec::new();
     for (fi, nodes) in per_file.into_iter().enumerate() {
         let lang = lang(langs[fi % langs.len()]);
-        let r = render(&FileSpec { lang, nodes, crlf: false, final_newline: true });
+        let r = if same_line { render_inline(&inline[fi], rng) } else { render(&FileSpec { lang, nodes, crlf: false, final_newline: true }) };
         files.push((format!("{}w{fi}.{}", ["", "src/", "a/b/"][fi % 3], lang.suffixes[0]), r.text.clone()));
         rendered.push(r);
     }
@@ -159,7 +203,7 @@ pub fn generate(rng: &mut Rng, idx: usize, tier: Tier) -> CaseOut {
         mix::rcase_coq(&spec, &tables), emit::obs(&obs),
         if any_fail { "None".to_string() } else { format!("(Some [{}])", exp.join("; ")) }, cbool(once_ok)
     );
-    let mut tags = vec![format!("blocks:{}", nblocks.min(13)), format!("workers:{workers}"), format!("pinned:{}", cpus == 1), format!("failing:{any_fail}"), format!("counted:{count_mode}")];
+    let mut tags = vec![format!("same-line:{same_line}"), format!("blocks:{}", nblocks.min(13)), format!("workers:{workers}"), format!("pinned:{}", cpus == 1), format!("failing:{any_fail}"), format!("counted:{count_mode}")];
     match &obs {
         Outcome::Ok((ds, _)) => tags.push(format!("diagnostics:{}", ds.len().min(13))),
         Outcome::Err(c, _) => tags.push(format!("error-class:{c}")),
